@@ -42,19 +42,12 @@ std::string get_extension(const char* input_filename)
 
 std::string output_filename(const char* input_filename, const char* extension)
 {
-	static char str[256];
-	char *last_dot;
-	strncpy(str,input_filename, 256);
-	last_dot = strrchr(str, '.');
-	if(last_dot && strchr(last_dot, '/'))
-		last_dot = NULL; // the dot belongs to a directory name, not to the file name
-	if(last_dot)
-		*last_dot = 0;
-	else
-		last_dot = str + strlen(str); // no extension: append
-	strncat(last_dot, ".", 256);
-	strncat(last_dot, extension, 256);
-	return str;
+	std::string str = input_filename;
+	auto last_dot = str.rfind('.');
+	// a dot followed by a path separator belongs to a directory name, not to the file name
+	if(last_dot != std::string::npos && str.find('/', last_dot) == std::string::npos)
+		str.erase(last_dot);
+	return str + "." + extension;
 }
 
 void validate_song(Song& song)
